@@ -94,6 +94,8 @@ func main() {
 		cmdLoop(in)
 	case "memops":
 		cmdMemOps(in)
+	case "valseq":
+		cmdValSeq(in)
 	default:
 		fmt.Fprintln(os.Stderr, "unknown command", os.Args[1])
 		os.Exit(2)
